@@ -371,7 +371,9 @@ class C07(Monitor):
             return [
                 ("Pa", lambda: S.with_modes(S.prog_Pa()), S.n_prog_Pa()),
             ]
-        return progs_strata(self.tier, False, None)
+        # thorough: every stratum of the grammar and the families, without the stdlib
+        # corpus and the triple/depth-3 strata (their documents add volume, not shapes)
+        return [x for x in progs_strata(self.tier, False, None) if x[0] not in ("C", "Pd3", "Pdn")]
 
     def predicted(self):
         n = consts.size(self.tier) * len(self.const_positions()) + len(STRINGS) * len(STRING_POSITIONS) + 4
